@@ -41,6 +41,9 @@ func genStructs(o *hx.Out, rng *hx.Rng, n, nmut int, big bool) {
 				}
 			}
 		}
+		for _, dr := range cxs.GenDirect(rng, e, n) { // Go values built directly (reflection) from model values
+			o.Put(dr)
+		}
 		o.Put(cxs.RunStruct(e, []byte{}, "empty"))
 		for i := 0; i < n; i++ {
 			d := cxs.GenValue(rng, e, 0, i%3 == 2)
@@ -80,6 +83,14 @@ func replayOther(o *hx.Out, k string, line []byte) {
 		}
 		d, _ := hex.DecodeString(r.D)
 		o.Put(cxs.RunStruct(e, d, r.Gen))
+	case "dv":
+		var r cxs.DirectRec
+		if err := json.Unmarshal(line, &r); err != nil {
+			panic(err)
+		}
+		if rec, ok := cxs.RunDirect(hx.NewRng(1), cxs.Lookup(r.Name), r.V); ok {
+			o.Put(rec)
+		}
 	case "nil":
 		var r cxs.NilRec
 		if err := json.Unmarshal(line, &r); err != nil {
